@@ -28,8 +28,9 @@ def main():
             tier = sys.argv[i + 1]
     meta = json.load(open(os.path.join(d, "meta.json")))
     props = props or [meta["property"]]
-    wt = tempfile.mkdtemp(prefix="seedwt_", dir="/tmp")
-    os.rmdir(wt)
+    # the suite has 10 tests that look for a checkout directory called "pytestarch" (they time out otherwise)
+    top = tempfile.mkdtemp(prefix="seedwt_", dir="/tmp")
+    wt = os.path.join(top, "pytestarch")
     res = {"dir": d, "props": props}
     try:
         rc, out = sh(["git", "-C", "/repo", "worktree", "add", "-q", "--detach", wt, "HEAD"])
@@ -47,13 +48,12 @@ def main():
         rc1, o1 = sh([PY, demo], cwd=wt, env=env, timeout=600)
         res["demo_patched_rc"] = rc1
         if do_validate:
-            rc, out = sh([PY, "-m", "pytest", "-q", "-p", "no:cacheprovider", "--timeout=900", "-n", "4", "--deselect", "tests/test_architecture.py"], cwd=wt, env=env)
+            rc, out = sh([PY, "-m", "pytest", "-q", "-p", "no:cacheprovider", "--timeout=900", "-n", "4"], cwd=wt, env=env)
             tail = out.strip().split("\n")[-1]
             res["suite"] = tail
-            res["suite_baseline"] = "5 failed, 851 passed" in tail
+            res["suite_baseline"] = "861 passed" in tail and "failed" not in tail and "error" not in tail
             failed = sorted(l.split("::")[-1] for l in out.split("\n") if l.startswith("FAILED"))
-            res["suite_failed_only_module_graph"] = all("test_module_graph" in l for l in out.split("\n") if l.startswith("FAILED"))
-            res["valid"] = rc0 == 0 and rc1 != 0 and res["suite_baseline"] and res["suite_failed_only_module_graph"]
+            res["valid"] = rc0 == 0 and rc1 != 0 and res["suite_baseline"]
         if not do_checks:
             print(json.dumps(res))
             return
@@ -80,7 +80,7 @@ def main():
         print(json.dumps(res))
     finally:
         sh(["git", "-C", "/repo", "worktree", "remove", "--force", wt])
-        shutil.rmtree(wt, ignore_errors=True)
+        shutil.rmtree(top, ignore_errors=True)
         if do_checks:
             # the translator may have rewritten the generated file from the patched tree: restore from /repo
             sh([PY, "-m", "harness.translate_flags"], cwd=VERIF)
